@@ -95,7 +95,7 @@ class Tree:
             for st in body:
                 if isinstance(st, (ast.FunctionDef, ast.AsyncFunctionDef)):
                     q = prefix + st.name
-                    funcs.setdefault(q, st)
+                    funcs[q] = st  # last definition wins (typing.overload stubs come first)
                     st._qual = q  # type: ignore[attr-defined]
                     st._rel = rel  # type: ignore[attr-defined]
                     visit(st.body, q + ".")
